@@ -665,10 +665,20 @@ impl<E: Effect> Executor<E> {
 
         self.processes.insert(id, process);
 
-        // Inject heap data and populate locals with captures
+        // Inject heap data once for the captures and the argument together (their heap indices
+        // refer to the one shared `heap_data` vector), then populate locals with the captures.
         let captures_count = captures.len();
-        for value in captures {
-            let injected = self.inject_heap_data(value, &heap_data)?;
+        let mut combined = captures;
+        combined.push(argument);
+        let injected = self.inject_heap_data(Value::tuple(crate::types::NIL, combined), &heap_data)?;
+        let Value::Tuple(_, fields) = injected else {
+            unreachable!("inject_heap_data preserves the tuple shape")
+        };
+        let mut injected_captures = (*fields).clone();
+        let injected_arg = injected_captures
+            .pop()
+            .expect("argument was appended after the captures");
+        for injected in injected_captures {
             // Injected into rooted storage (the new frame's locals).
             self.retain(&injected);
             let process = self
@@ -678,7 +688,6 @@ impl<E: Effect> Executor<E> {
         }
 
         // Push argument onto stack
-        let injected_arg = self.inject_heap_data(argument, &heap_data)?;
         self.retain(&injected_arg);
         let process = self
             .get_process_mut(id)
